@@ -87,6 +87,15 @@ func (mbox *Mailbox) statusDataLocked(options *imap.StatusOptions) *imap.StatusD
 		size := mbox.sizeLocked()
 		data.Size = &size
 	}
+	if options.DeletedStorage {
+		var storage int64
+		for _, msg := range mbox.l {
+			if _, ok := msg.flags[canonicalFlag(imap.FlagDeleted)]; ok {
+				storage += int64(len(msg.buf))
+			}
+		}
+		data.DeletedStorage = &storage
+	}
 	return &data
 }
 
